@@ -892,7 +892,10 @@ class Ops(object):
                 h2 = self.world.hooks.get('is_none')
                 if h2 is not None:
                     return h2(it, a if b is None else b)
-                return False
+                if isinstance(a, SKey) or isinstance(b, SKey):
+                    return False            # an abstract string is not None
+                # an opaque value may be None: never assume it is not (a world that knows better installs the hook 'is_none')
+                raise OutOfSubset('`is None` on an opaque value in a world without a model of None')
             raise OutOfSubset('identity of %r and %r' % (a, b))
         if isinstance(a, (SInt, SBool)) or isinstance(b, (SInt, SBool)):
             if a is None or b is None or a is NotImplemented or b is NotImplemented:
